@@ -374,6 +374,10 @@ func (c *FnCtx) execInstr(fr *Frame, st *State, in ssa.Instruction) {
 		if o, ok := fr.origin[x.X]; ok {
 			fr.origin[x] = o
 		}
+		switch typeKey(x.X.Type()) {
+		case "*bytes.Buffer", "*strings.Builder":
+			c.addFactT(st, b, ts.UF("infallibleWriter", SBool, b))
+		}
 	case *ssa.TypeAssert:
 		c.typeAssert(fr, st, x)
 	case *ssa.Extract:
